@@ -1,0 +1,146 @@
+/* -*- Mode: C; c-basic-offset:4 ; indent-tabs-mode:nil ; -*- */
+/*
+ * See COPYRIGHT in top-level directory.
+ */
+
+#ifndef ABTI_VERIF_H_INCLUDED
+#define ABTI_VERIF_H_INCLUDED
+
+/*
+ * Verification-only hooks.  Everything in this header (and in src/verif.c and
+ * abtd_verif_fiber.h) is compiled only when PMODELS_ARGOBOTS_VERIF is defined;
+ * otherwise every macro below expands to nothing.
+ *
+ * ABTI_VERIF_POINT(id): a named point inside the runtime.  It bumps a coverage
+ * counter and, if a monitor installed ABTI_verif_point_f, calls it (used to
+ * inject delays that widen a window between two steps).
+ * ABTI_VERIF_COV(id): coverage counter only (which branch was taken).
+ */
+
+#ifdef PMODELS_ARGOBOTS_VERIF
+
+enum {
+    /* pools */
+    ABTI_VERIF_P_POP_NONEMPTY_SEEN = 1, /* is_empty==0 seen, before try-lock */
+    ABTI_VERIF_C_POP_BECAME_EMPTY,      /* gave up: became empty while waiting */
+    ABTI_VERIF_C_POP_LOCK_CONTENDED,
+    ABTI_VERIF_P_PUSH_BEFORE_LOCK, /* after READY store, before pool lock */
+    ABTI_VERIF_P_FIFOWAIT_POP_BEFORE_WAIT,
+    /* yield / suspend / resume */
+    ABTI_VERIF_P_YIELD_SAVED, /* context saved, before re-push */
+    ABTI_VERIF_P_SUSPEND_BEFORE_BLOCKED,
+    ABTI_VERIF_P_SUSPEND_AFTER_BLOCKED, /* BLOCKED visible, lock/link not yet */
+    ABTI_VERIF_P_RESUME_AFTER_PUSH,     /* pushed, num_blocked not yet dec'd */
+    /* join / exit */
+    ABTI_VERIF_P_JOIN_AFTER_REQ, /* fetch_or(REQ_JOIN) done, not yet suspended */
+    ABTI_VERIF_C_JOIN_SUSPEND,
+    ABTI_VERIF_C_JOIN_YIELD_LOOP,
+    ABTI_VERIF_C_JOIN_ALREADY_TERMINATED,
+    ABTI_VERIF_C_JOIN_FUTEX,
+    ABTI_VERIF_P_JOIN_FUTEX_AFTER_REQ,
+    ABTI_VERIF_P_GET_JOINER_BEFORE_REQ, /* link NULL seen, before fetch_or */
+    ABTI_VERIF_C_GET_JOINER_NONE,
+    ABTI_VERIF_C_GET_JOINER_READY,
+    ABTI_VERIF_C_GET_JOINER_WAITED,
+    ABTI_VERIF_C_EXIT_JUMP_TO_JOINER,
+    ABTI_VERIF_C_EXIT_PUSH_JOINER,
+    ABTI_VERIF_C_EXIT_FUTEX_JOINER,
+    ABTI_VERIF_P_TERMINATE_BEFORE_STORE,
+    ABTI_VERIF_P_JOIN_BEFORE_FINAL_WAIT,
+    /* scheduling requests */
+    ABTI_VERIF_C_SCHEDULE_CANCELLED,
+    ABTI_VERIF_C_SCHEDULE_MIGRATED,
+    ABTI_VERIF_P_MIGRATE_BEFORE_CLEAR,
+    ABTI_VERIF_P_MIGRATE_AFTER_TARGET_SET,
+    ABTI_VERIF_P_THREAD_YIELD_TO_BEFORE_REMOVE,
+    ABTI_VERIF_P_SCHED_STOP_AFTER_SIZE, /* pools seen empty, before request */
+    ABTI_VERIF_P_MAIN_SCHED_AFTER_RUN,
+    ABTI_VERIF_P_XSTREAM_JOIN_AFTER_REQ,
+    /* mutex / waitlist / futex */
+    ABTI_VERIF_P_MUTEX_LOCK_AFTER_FAIL,
+    ABTI_VERIF_P_MUTEX_LOCK_BEFORE_RETRY,
+    ABTI_VERIF_C_MUTEX_LOCK_RETRY_WON,
+    ABTI_VERIF_C_MUTEX_LOCK_WAIT,
+    ABTI_VERIF_P_MUTEX_UNLOCK_BEFORE_RELEASE,
+    ABTI_VERIF_P_MUTEX_UNLOCK_BEFORE_BROADCAST,
+    ABTI_VERIF_P_WAITLIST_EXT_BEFORE_SLEEP,
+    ABTI_VERIF_P_WAITLIST_EXT_AFTER_WAKE,
+    ABTI_VERIF_C_WAITLIST_ULT_WAIT,
+    ABTI_VERIF_P_FUTEX_WAIT_AFTER_UNLOCK,
+    ABTI_VERIF_P_COND_WAIT_AFTER_UNLOCK,
+    ABTI_VERIF_P_TIMEDOUT_BEFORE_RELOCK,
+    ABTI_VERIF_C_TIMEDOUT_ALREADY_READY,
+    ABTI_VERIF_C_TIMEDOUT_REMOVE_HEAD,
+    ABTI_VERIF_C_TIMEDOUT_REMOVE_MIDDLE,
+    ABTI_VERIF_C_TIMEDOUT_REMOVE_TAIL,
+    ABTI_VERIF_P_SIGNAL_EXT_AFTER_READY,
+    ABTI_VERIF_C_SIGNAL_ULT,
+    ABTI_VERIF_C_SIGNAL_EMPTY,
+    ABTI_VERIF_P_BROADCAST_BEFORE_FUTEX,
+    ABTI_VERIF_C_BROADCAST_ULT,
+    ABTI_VERIF_C_BROADCAST_EXT,
+    ABTI_VERIF_C_BROADCAST_EMPTY,
+    /* eventual / future / barrier */
+    ABTI_VERIF_P_EVENTUAL_SET_BEFORE_BROADCAST,
+    ABTI_VERIF_C_EVENTUAL_SET_REJECTED,
+    ABTI_VERIF_P_FUTURE_SET_BEFORE_BROADCAST,
+    ABTI_VERIF_C_FUTURE_CALLBACK,
+    ABTI_VERIF_C_FUTURE_SET_REJECTED,
+    ABTI_VERIF_P_BARRIER_LAST_BEFORE_RESET,
+    ABTI_VERIF_C_BARRIER_NOT_LAST,
+    /* memory */
+    ABTI_VERIF_P_LIFO_PUSH_BEFORE_CAS,
+    ABTI_VERIF_P_LIFO_POP_BEFORE_CAS,
+    ABTI_VERIF_C_LIFO_CAS_RETRY,
+    ABTI_VERIF_C_MEMPOOL_TAKE_BUCKET,
+    ABTI_VERIF_C_MEMPOOL_RETURN_BUCKET,
+    ABTI_VERIF_C_MEMPOOL_NEW_PAGE,
+    ABTI_VERIF_C_MEMPOOL_PARTIAL_MERGE,
+    ABTI_VERIF_C_MEMPOOL_PARTIAL_COMPLETE,
+    /* units / keys / ranks */
+    ABTI_VERIF_C_UNITMAP_REUSE_TOMBSTONE,
+    ABTI_VERIF_C_UNITMAP_APPEND,
+    ABTI_VERIF_C_UNITMAP_LONG_CHAIN,
+    ABTI_VERIF_C_KTABLE_CREATE_RACE_LOST,
+    ABTI_VERIF_C_KTABLE_CREATED,
+    ABTI_VERIF_C_KTABLE_NEW_BLOCK,
+    ABTI_VERIF_P_KTABLE_SET_BEFORE_LOCK,
+    ABTI_VERIF_C_RANK_INSERT_HEAD,
+    ABTI_VERIF_C_RANK_INSERT_MIDDLE,
+    ABTI_VERIF_C_RANK_INSERT_TAIL,
+    ABTI_VERIF_C_RANK_GAP_REUSED,
+    ABTI_VERIF_NUM_POINTS = 128
+};
+
+typedef struct {
+    uint64_t n;
+    char pad[56];
+} ABTI_verif_counter;
+
+extern ABTI_verif_counter ABTI_verif_cov[ABTI_VERIF_NUM_POINTS];
+extern void (*volatile ABTI_verif_point_f)(int id);
+
+static inline void ABTI_verif_cov_inc(int id)
+{
+    __atomic_fetch_add(&ABTI_verif_cov[id].n, 1, __ATOMIC_RELAXED);
+}
+
+static inline void ABTI_verif_point(int id)
+{
+    ABTI_verif_cov_inc(id);
+    void (*f)(int) = ABTI_verif_point_f;
+    if (f)
+        f(id);
+}
+
+#define ABTI_VERIF_POINT(id) ABTI_verif_point(id)
+#define ABTI_VERIF_COV(id) ABTI_verif_cov_inc(id)
+
+#else /* !PMODELS_ARGOBOTS_VERIF */
+
+#define ABTI_VERIF_POINT(id) ((void)0)
+#define ABTI_VERIF_COV(id) ((void)0)
+
+#endif /* PMODELS_ARGOBOTS_VERIF */
+
+#endif /* ABTI_VERIF_H_INCLUDED */
